@@ -139,3 +139,80 @@ fn c14_smh_method_f64_m4() {
 fn c14_smh_method_f32_m3() {
     c14_method::<f32, 3>();
 }
+
+// =====================================================================================
+// C13 — reinit() from arbitrary content gives exactly the state of new(size)
+// =====================================================================================
+
+/// every mutable field arbitrary (no invariant at all)
+pub(crate) fn garbage_smh<F: AnyF>(m: usize) -> SuperMinHash<F, u64, NoHashHasher> {
+    let mut s = SuperMinHash::<F, u64, NoHashHasher>::new(m, BuildHasherDefault::<NoHashHasher>::default());
+    for i in 0..m {
+        s.hsketch[i] = F::anyf();
+        s.q[i] = kani::any();
+        s.p[i] = kani::any();
+        s.b[i] = kani::any();
+    }
+    s.item_rank = kani::any();
+    s.a_upper = kani::any();
+    s
+}
+
+/// field-wise equality; the exhaustive patterns make this stop compiling when a field is added,
+/// so a new field cannot be silently left out of the comparison
+pub(crate) fn same_state_smh<F: AnyF>(x: &SuperMinHash<F, u64, NoHashHasher>, y: &SuperMinHash<F, u64, NoHashHasher>) -> bool {
+    let SuperMinHash { hsketch, q, p, b, item_rank, a_upper, b_hasher: _, t_marker: _ } = x;
+    let SuperMinHash { hsketch: h2, q: q2, p: p2, b: b2, item_rank: ir2, a_upper: au2, b_hasher: _, t_marker: _ } = y;
+    let m = hsketch.len();
+    let mut ok = h2.len() == m && q.len() == m && q2.len() == m && p.len() == m && p2.len() == m && b.len() == m && b2.len() == m;
+    ok = ok && item_rank == ir2 && a_upper == au2;
+    if ok {
+        for i in 0..m {
+            ok = ok && hsketch[i] == h2[i] && q[i] == q2[i] && p[i] == p2[i] && b[i] == b2[i];
+        }
+    }
+    ok
+}
+
+fn c13_reinit<F: AnyF, const M: usize>() {
+    let mut s = garbage_smh::<F>(M);
+    s.reinit();
+    let n = SuperMinHash::<F, u64, NoHashHasher>::new(M, BuildHasherDefault::<NoHashHasher>::default());
+    assert!(same_state_smh(&s, &n));
+    // and the fresh state is the documented one
+    for i in 0..M {
+        assert!(n.hsketch[i] == F::from(u32::MAX).unwrap());
+        assert!(n.q[i] == -1 && n.p[i] == 0);
+        assert!(n.b[i] == if i == M - 1 { M as i64 } else { 0 });
+    }
+    assert!(n.item_rank == 0 && n.a_upper == M - 1);
+    kani::cover!(true, "witness");
+    std::mem::forget(s);
+    std::mem::forget(n);
+}
+
+#[kani::proof]
+#[kani::unwind(5)]
+fn c13_smh_f64_m2() {
+    c13_reinit::<f64, 2>();
+}
+#[kani::proof]
+#[kani::unwind(6)]
+fn c13_smh_f64_m3() {
+    c13_reinit::<f64, 3>();
+}
+#[kani::proof]
+#[kani::unwind(8)]
+fn c13_smh_f64_m5() {
+    c13_reinit::<f64, 5>();
+}
+#[kani::proof]
+#[kani::unwind(6)]
+fn c13_smh_f32_m3() {
+    c13_reinit::<f32, 3>();
+}
+#[kani::proof]
+#[kani::unwind(4)]
+fn c13_smh_f64_m1() {
+    c13_reinit::<f64, 1>();
+}
